@@ -195,10 +195,22 @@ func (cl *cluster) step(ev string) {
 	cl.cloneOracle()
 }
 
+// reopenOracle: the directory of node n must open with the real code (checked on a byte copy).
+func (cl *cluster) reopenOracle(ev string, n int, why string) {
+	rn, ok := cl.nodes[n].(*RealNode)
+	if !ok || !(cl.wants("c07") || cl.wants("c19") || cl.wants("c12")) {
+		return
+	}
+	cl.cnt["reopen_after_failed_task_checks"]++
+	if d := rn.OpensAfterDeath(); d != "" {
+		cl.violate("reopen", "joiner-cannot-reopen", fmt.Sprintf("%s: node %d: %s, and a new replica process could not open its directory: %s", ev, n, why, d))
+	}
+}
+
 // waitDetached: a fault that only the monitor path can notice (no I/O in flight) has hit node i's backend: the
 // replica must leave the volume.  The generous deadline turns "never noticed" into a diagnosis.
 func (cl *cluster) waitDetached(ev string, i int) {
-	deadline := time.Now().Add(15 * time.Second)
+	deadline := time.Now().Add(60 * time.Second)
 	for {
 		listed := true
 		var reps []types.Replica
@@ -215,7 +227,7 @@ func (cl *cluster) waitDetached(ev string, i int) {
 			return
 		}
 		if time.Now().After(deadline) {
-			cl.violate("failure-unnoticed", "idle-failure-unnoticed:"+strings.Split(ev, ":")[0], fmt.Sprintf("%s: node %d is still listed 15 s after the fault although the real monitor goroutine and rpc client are running: the replica is never detached and the volume status never re-evaluated; replicas: %v", ev, i, reps))
+			cl.violate("failure-unnoticed", "idle-failure-unnoticed:"+strings.Split(ev, ":")[0], fmt.Sprintf("%s: node %d is still listed 60 s after the fault although the real monitor goroutine and rpc client are running: the replica is never detached and the volume status never re-evaluated; replicas: %v", ev, i, reps))
 			return
 		}
 		time.Sleep(100 * time.Microsecond)
@@ -491,6 +503,11 @@ func (cl *cluster) apply(ev string) {
 		if cl.task.panicked != "" {
 			cl.violate("panic", "panic:task:"+cl.task.kind, "the replica-side task panicked: "+cl.task.panicked)
 		}
+		if cl.task.done && cl.task.err != nil && !cl.task.killed {
+			// a rebuild / clone that failed ends the replica process (Fatalf): the next process must be able to open the
+			// directory, or the replica can never try again
+			cl.reopenOracle(ev, cl.task.node, "the "+cl.task.kind+" failed ("+cl.task.err.Error()+")")
+		}
 	case "FiemapFail":
 		cl.failFiemap = true
 		cl.nFaults++
@@ -517,7 +534,7 @@ func (cl *cluster) apply(ev string) {
 			// the answer has been consumed when a second tick is accepted (the goroutine is back in its select)
 			select {
 			case b.tick <- vtime.Now():
-			case <-time.After(10 * time.Second):
+			case <-time.After(60 * time.Second):
 				cl.violate("wedged", "monitor-ping-stuck", fmt.Sprintf("%s: the monitor goroutine of node %d did not come back from a ping that was answered", ev, i))
 			}
 		}
@@ -560,6 +577,7 @@ func (cl *cluster) apply(ev string) {
 		}
 		cl.nRestart++
 		cl.observe("Kill -> %s", cl.taskDesc())
+		cl.reopenOracle(ev, n, "its process was killed during the "+cl.task.kind)
 	case "DelSnap":
 		cl.deleteSnapshot(ev, f[1], before)
 	case "Cleaners":
